@@ -456,11 +456,32 @@ func crashHead(stderr string) string {
 
 var recoveredRe = regexp.MustCompile(`\s*\[recovered\].*`)
 
-// goPanicSig normalises a Go panic / fatal error dump.
+var elkFrameRe = regexp.MustCompile(`github\.com/elk-language/elk/[\w/]+\.\(?\*?\w*\)?\.?[\w.\[\]]+`)
+var anonInitRe = regexp.MustCompile(`\.init\w*\.func\d+`)
+var numRe = regexp.MustCompile(`0x[0-9a-f]+|\b\d+\b`)
+
+// goPanicSig normalises a Go panic / fatal error dump: message plus the first two frames inside the elk module,
+// skipping the anonymous bodies of native methods (vm.initX.funcN: which native method was reached is incidental).
 func goPanicSig(stderr string) string {
 	h := crashHead(stderr)
 	first := recoveredRe.ReplaceAllString(strings.SplitN(h, "\n", 2)[0], "")
-	return engine.PanicSig(first, h)
+	msg := numRe.ReplaceAllString(strings.TrimSpace(first), "N")
+	if len(msg) > 100 {
+		msg = msg[:100]
+	}
+	sig, n, seen := msg, 0, ""
+	for _, f := range elkFrameRe.FindAllString(h, -1) {
+		f = strings.TrimPrefix(f, "github.com/elk-language/elk/")
+		if f == seen || anonInitRe.MatchString(f) || strings.Contains(f, "vm.(*Thread).run.func") {
+			continue
+		}
+		seen = f
+		sig += " @ " + f
+		if n++; n == 2 {
+			break
+		}
+	}
+	return sig
 }
 
 // ---------------------------------------------------------------- per-worker preparation
@@ -616,7 +637,7 @@ func notAccepted(r *engine.R, status, detail string) {
 }
 
 func checkItem(r *engine.R, rc *rec) {
-	it, src, fam := rc.it, rc.src, rc.b.Family
+	it, src := rc.it, rc.src
 	vmr := rc.f.VM
 	r.Eval(1)
 	if vmr.Rejected {
@@ -643,7 +664,7 @@ func checkItem(r *engine.R, rc *rec) {
 	r.NT(1)
 	r.Count("programs_compiled_natively", 1)
 	if rc.berr != "" {
-		r.Violation("generated Go does not compile family="+fam+" "+buildErrSig(rc.berr), fmt.Sprintf("construct: %s\n%s\n--- go build:\n%s", it.Sig, src, firstLines(rc.berr, 12)), src)
+		r.Violation("generated Go does not compile: "+buildErrSig(rc.berr), fmt.Sprintf("construct: %s\n%s\n--- go build:\n%s", it.Sig, src, firstLines(rc.berr, 12)), src)
 		r.Outcome("violation: go build error")
 		return
 	}
@@ -669,7 +690,7 @@ func checkItem(r *engine.R, rc *rec) {
 		return
 	}
 	if nat.GoPanic {
-		r.Violation("native binary dies with a Go panic family="+fam+" "+goPanicSig(nat.Stderr),
+		r.Violation("native binary dies with a Go panic: "+goPanicSig(nat.Stderr),
 			fmt.Sprintf("construct: %s\n%s\n--- VM: failed=%v stdout=%q %s\n--- native stdout=%q stderr:\n%s", it.Sig, src, vmr.Failed, vmr.Stdout, vmr.Rep.Head, nat.Stdout, firstLines(nat.Stderr, 14)), src)
 		r.Outcome("violation: native go panic")
 		return
@@ -722,7 +743,7 @@ func buildErrSig(out string) string {
 	if len(s) > 90 {
 		s = s[:90]
 	}
-	return "err=" + s
+	return s
 }
 
 func headClass(h string) string {
